@@ -174,11 +174,11 @@ def gen_template(rng, prof, depth, top=False):
 
 def instantiate(rng, prof, t):
     if t[0] == 's':
-        if rng.random() < prof.nulls:
+        if len(t) == 2 and rng.random() < prof.nulls:
             return None
         return scalar_of(rng, rng.choice(t[1]))
     if t[0] == 'o':
-        if rng.random() < prof.nulls * 0.3:
+        if rng.random() < prof.nulls * 0.6:
             return None
         out = {}
         for k, sub in t[1]:
@@ -189,14 +189,57 @@ def instantiate(rng, prof, t):
                 continue
             out[k] = instantiate(rng, prof, sub)
         return out
+    if rng.random() < prof.nulls * 0.4:
+        return None
     if not t[1]:
         return []
     n = rng.choice([0, 1, 1, 2, 2, 3, 4])
     return [instantiate(rng, prof, rng.choice(t[1]) if len(t[1]) > 1 else t[1][0]) for _ in range(n)]
 
 
+def gen_deep(rng, prof):
+    """siblings whose lists of objects are merged at two levels, nulls at every level (Optional must survive the
+    nested merges)"""
+    prof.nulls = rng.choice([0.15, 0.3, 0.45])
+
+    def leaf():
+        return ('s', [rng.choice(['int', 'str', 'bool', 'float', 'date', 'intstr'])])
+
+    def obj(depth):
+        fields, used = [], set()
+        for _ in range(rng.randint(1, 3)):
+            r = rng.random()
+            if depth > 0 and r < 0.35:
+                sub = ('l', [obj(depth - 1)])
+            elif depth > 0 and r < 0.55:
+                sub = obj(depth - 1)
+            elif r < 0.7:
+                sub = ('l', [leaf() + ('nonnull',)])
+            else:
+                sub = leaf()
+            k = pick_key(rng, prof, used, sub[0] != 's')
+            if k is not None:
+                used.add(k)
+                fields.append((k, sub))
+        return ('o', fields)
+    inner = obj(rng.choice([1, 2]))
+    k = pick_key(rng, prof, set(), True) or 'rows'
+    top = ('o', [(k, ('l', [inner]))] + ([(pick_key(rng, prof, {k}, False) or 'n', leaf())] if rng.random() < 0.5 else []))
+    n = rng.randint(2, 4)
+    doc = [instantiate(rng, prof, top) for _ in range(n)]
+    doc = [d for d in doc if d is not None] or [{}]
+    if rng.random() < 0.4:
+        doc = {pick_key(rng, prof, set(), True) or 'root': doc}
+    return doc
+
+
 def gen_doc(rng):
     prof = Prof(rng)
+    if rng.random() < 0.1:
+        for a in ('bad_keys', 'uni_keys', 'hetero', 'mixed', 'case_dups', 'underscores', 'clash', 'oddnum'):
+            setattr(prof, a, False)
+        doc = gen_deep(rng, prof)
+        return doc, ['deep'] + prof.flags()
     depth = rng.choice([1, 2, 2, 3, 3, 4])
     if rng.random() < 0.6:
         t = gen_template(rng, prof, depth, top='o')
@@ -526,6 +569,75 @@ def all_shapes(doc, force_strings):
 
 # ----------------------------------------------------------------------------- attribution to known-finding classes
 
+def ref_pascal(s):
+    """reference transcription of `to_pascal_case` as it stands in the unchanged tree (underscores at the ends survive)"""
+    import re
+    s = s.replace('-', '_').replace(' ', '_')
+    while '__' in s:
+        s = s.replace('__', '_')
+    if not s:
+        return s
+    return s[0].upper() + re.sub(r'(?:_)(.)', lambda m: m.group(1).upper(), s[1:])
+
+
+_REAL_SINGULARIZE = [None]
+
+
+def ref_class_names(doc):
+    """class name -> number of class-generating positions of the document that the reference naming gives that name
+    (plus the implicit Data / Container / Data<n> names)"""
+    from dataclass_wizard.wizard_cli import schema
+    sing = _REAL_SINGULARIZE[0] or schema.English.singularize
+    counts = {}
+
+    def add(n):
+        counts[n] = counts.get(n, 0) + 1
+
+    def walk(v, name):
+        # `name`: class name objects found directly in this list get
+        if isinstance(v, dict):
+            for k, x in v.items():
+                if isinstance(x, dict):
+                    add(ref_pascal(k))
+                    walk(x, None)
+                elif isinstance(x, list):
+                    nm = ref_pascal(sing(schema.English.humanize(k)).replace(' ', '')) if k else ''
+                    walk_list(x, nm or None)
+        elif isinstance(v, list):
+            walk_list(v, name)
+
+    def walk_list(xs, nm):
+        if any(isinstance(e, dict) for e in xs):
+            add(nm if nm else 'Data<n>')
+        for e in xs:
+            if isinstance(e, dict):
+                walk(e, None)
+            elif isinstance(e, list):
+                walk_list(e, None)
+    if isinstance(doc, dict):
+        add('Data')
+        walk(doc, None)
+    else:
+        add('Container')
+        walk_list(doc, 'Data')
+    return counts
+
+
+def dup_explained(doc, dup_names):
+    """every duplicated class name of the output is one the reference naming also gives to several positions of the
+    document (the same key at different paths, singular/plural or case variants of one name, a key named like the
+    implicit Data / Container / Data<n> classes)"""
+    import re
+    counts = ref_class_names(doc)
+    for n in dup_names:
+        c = counts.get(n, 0)
+        if re.fullmatch(r'Data\d+', n):
+            c += counts.get('Data<n>', 0)
+        if c < 2:
+            return False
+    return True
+
+
 def union_nodes(tree, out):
     """members of every Union[...] / X | Y node of an annotation tree"""
     if not isinstance(tree, list) or not tree:
@@ -573,6 +685,9 @@ def field_annotation(src, class_name, field_name):
     return None, names
 
 
+LISTY = {'mixed-list', 'list-in-list', 'snake-collision'}     # shapes that put a List next to other members of a Union
+
+
 def attribute(kind, exc, doc, src, diag, shapes, bad_keys, nfkc_keys, offending=None):
     """known-finding key for a failure, or None.  A key is given only when the document has the finding's shape AND the
     symptom is the one that shape produces."""
@@ -582,7 +697,7 @@ def attribute(kind, exc, doc, src, diag, shapes, bad_keys, nfkc_keys, offending=
     if kind in ('gen:syntax',):
         return 'gs-key-not-identifier' if bad_keys and (diag['bad_field'] or diag['bad_class']) else None
     if diag['dup_class']:
-        return 'gs-duplicate-class-name'
+        return 'gs-duplicate-class-name' if dup_explained(doc, diag['dup_class']) else None
     if diag['shadow']:
         return 'gs-class-shadows-import'
     if kind == 'gen:import':
@@ -602,6 +717,8 @@ def attribute(kind, exc, doc, src, diag, shapes, bad_keys, nfkc_keys, offending=
                 return 'gs-key-nfkc-normalised'
             if bad_keys:
                 return 'gs-key-not-identifier'
+            if not isinstance(getattr(exc, 'obj', {}), dict) and shapes & LISTY and has_union_with_list(src):
+                return 'gs-union-with-list'
             if 'missing-key' in shapes:
                 return 'gs-missing-key-required'
             return None
@@ -619,14 +736,14 @@ def attribute(kind, exc, doc, src, diag, shapes, bad_keys, nfkc_keys, offending=
             for members in union_nodes(tree, []):
                 if len(members) > 1 and ['name', 'str'] not in members and isinstance(getattr(exc, 'obj', None), str):
                     return 'gs-union-of-converted-strings'
-            if ('mixed-list' in shapes or 'list-in-list' in shapes) and has_union_with_list(src):
+            if shapes & LISTY and has_union_with_list(src):
                 return 'gs-union-with-list'
             return None
         if 'numeric-not-int' in shapes and 'invalid literal for int()' in msg:
             return 'gs-force-strings-isnumeric'
         if 'null-in-later-list' in shapes and (name == 'MissingData' or 'NoneType' in msg or 'value=None' in msg):
             return 'gs-null-list-element-merge'
-        if ('mixed-list' in shapes or 'list-in-list' in shapes) and has_union_with_list(src) and \
+        if shapes & LISTY and has_union_with_list(src) and \
                 name in ('ParseError', 'ValueError', 'TypeError', 'AttributeError', 'MissingData'):
             return 'gs-union-with-list'
     return None
@@ -720,6 +837,7 @@ class SingRecorder:
         self.schema = schema
         self.orig = schema.English.__dict__['singularize']
         self.real = schema.English.singularize
+        _REAL_SINGULARIZE[0] = self.real
         self.calls = []
         self.ever = {}
         self.conflicts = []
@@ -777,7 +895,7 @@ def std_tables(doc, sing_calls):
         'date': [s for s in S if _ok(dt.date.fromisoformat, s)],
         'time': [s for s in S if _ok(dt.time.fromisoformat, z(s))],
         'datetime': [s for s in S if _ok(dt.datetime.fromisoformat, z(s))],
-        'numeric': [s for s in S if s.isnumeric()],
+        'numeric': [s for s in S if s.isdecimal()],
         'float': [s for s in S if _ok(float, s)],
         'lower': [[s, s.lower()] for s in S],
         'singularize': [[w, r] for w, r in sing.items()],
@@ -853,6 +971,10 @@ CORPUS = [
     {"x": [[1, 2], [3]], "y": [], "z": {}},
     [], {}, [1, "a", None], [[{"a": 1}]],
     {"k": [{"a": [{"p": 1}, {"p": None}]}, {"a": [{"p": 2}]}]},
+    [{"k": [{"x": {"p": 1}}]}, {"k": [{"x": {"p": 2}}, {"x": None}]}],
+    [{"k": [{"x": [1]}]}, {"k": [{"x": [2]}, {"x": None}]}],
+    {"r": [{"k": [{"x": {"p": 1}, "y": 1}]}, {"k": [{"x": None, "y": None}, {"x": {"p": None}, "y": 2}]}]},
+    [{"k": [{"x": 1}]}, {"k": [{"x": None}]}, {"k": []}],
     # known shapes
     [{"a": 1}, {"b": 2}],
     DEDUP_WITNESS,
@@ -1076,7 +1198,7 @@ def run(ctx: C.Ctx):
                 'types, every key has a field, generation twice; A-then-B vs pristine B in forked children of a fresh process; the '
                 'CLI as a subprocess on temp files with a pre-existing output. Non-trivial = distinct (document, flags).')
     ctx.trusted += [
-        'stdlib string tests (date/time/datetime.fromisoformat, str.isnumeric, float(), str.lower) and English.singularize are '
+        'stdlib string tests (date/time/datetime.fromisoformat, str.isdecimal, float(), str.lower) and English.singularize are '
         'table-backed in the model: tables computed with the stdlib / recorded from the real calls, a table miss voids nothing '
         '(it is reported as a disagreement)',
         'model domain: keys whose non-ASCII letters are uncased (string model is ASCII-cased); other keys are oracle-only',
